@@ -185,6 +185,7 @@ def sqlalchemy_models():
         t1 = sa.Column(sa.DateTime)
         d1 = sa.Column(sa.Date)
         k = sa.Column(sa.Integer, nullable=False, default=0)
+        g1 = sa.Column(sa.String)
         owner_id = sa.Column(sa.ForeignKey("owner.id"))
         owner = relationship("Owner", back_populates="items")
         parts = relationship("Part", back_populates="item")
